@@ -1,5 +1,6 @@
 import RtcModel.DtlsHs
 import RtcModel.Drv.Util
+import RtcModel.Drv.DtlsHsStream
 /-
 Driver for C03.  Streams:
   sess  init,<c|s>,<ms>,<cr>,<sr>,<cwKey>,<swKey>,<cwIv>,<swIv>,<vdClient>,<vdServer> op op …
@@ -13,26 +14,7 @@ Driver for C03.  Streams:
   dec   <datagram hex>                            `DtlsRecord::decode` applied repeatedly
 -/
 namespace RtcModel.Drv.C03
-open RtcModel.Generated RtcModel.DtlsRecord RtcModel.DtlsHs RtcModel.Drv
-
-def fnv64 (bs : Bytes) : Nat :=
-  bs.foldl (fun h b => ((h ^^^ b.toNat) * 0x100000001b3) % 2 ^ 64) 0xcbf29ce484222325
-
-def natHex (n : Nat) : String := String.ofList ((Nat.toDigits 16 n))
-
-/-- oracle table for the AEAD: key = fnv64(key ‖ nonce ‖ aad ‖ ciphertext‖tag) -/
-def parseTable (s : String) : List (String × String) :=
-  if s = "-" then [] else
-  (s.splitOn ";").filterMap fun kv =>
-    match kv.splitOn "=" with
-    | [k, v] => some (k, v)
-    | _ => none
-
-def tableDec (tbl : List (String × String)) : DecFn := fun k n a c =>
-  match tbl.lookup (natHex (fnv64 (k ++ n ++ a ++ c))) with
-  | some "x" => none
-  | some h => unhex h
-  | none => none
+open RtcModel.Generated RtcModel.DtlsRecord RtcModel.DtlsHs RtcModel.Drv RtcModel.Drv.DtlsStream
 
 /-- interpretation of handshake bodies used after the handshake: only Finished needs a value (the
 verify_data the endpoint expects, computed by the harness); every other decoder is offered bodies
@@ -51,19 +33,6 @@ def drvCrypto (vdClient vdServer : Bytes) : Crypto where
   vd _ label _ := if label then vdClient else vdServer
 
 def drvLoc : Loc := ⟨[], [], [], [], [], [], [], [], []⟩
-
-def connLetter : Conn → String
-  | .new => "N" | .handshaking => "H" | .connected => "C" | .failed => "F" | .closed => "X"
-
-def descr (w : WRec) : String :=
-  if w.ctype = dtlsCtApplicationData ∨ w.ctype = dtlsCtAlert then s!"{w.ctype}.{w.epoch}.{w.seq}.{w.plain.length}"
-  else s!"{w.ctype}.{w.epoch}.{w.seq}"
-
-def showOuts (e : Ep) (outs : List Out) : String :=
-  let del := outs.filterMap fun o => match o with | .deliver p => some (hex p) | _ => none
-  let snd := outs.filterMap fun o => match o with | .send w => some (descr w) | _ => none
-  let j (l : List String) := if l.isEmpty then "-" else "+".intercalate l
-  s!"{connLetter e.conn},{b01 e.alive},{j del},{j snd}"
 
 /-- the state a client / server is in after an undisturbed handshake with one flight each
 (sequence numbers as the code assigns them; validated by the correspondence itself) -/
@@ -86,15 +55,15 @@ def stepOp (C : Crypto) (e : Ep) (t : String) : Option (Ep × String) :=
   | ["dg", hx, tbl] => do
       let bs ← unhex hx
       let (e', outs) := onPacket (tableDec (parseTable tbl)) C drvLoc e bs
-      some (e', showOuts e' outs)
+      some (e', showOuts03 e' outs)
   | ["sd", hx] => do
       let bs ← unhex hx
       let (e', outs) := onSend e bs
-      some (e', showOuts e' outs)
+      some (e', showOuts03 e' outs)
   | ["cl"] =>
       let (e', outs) := onClose e
-      some (e', showOuts e' outs)
-  | ["tk"] => some (e, showOuts e (onTick e))
+      some (e', showOuts03 e' outs)
+  | ["tk"] => some (e, showOuts03 e (onTick e))
   | _ => none
 
 def showRec (r : Rec) : String := s!"{r.ctype}.{r.vmaj.toNat}.{r.vmin.toNat}.{r.epoch}.{r.seq}.{hex r.body}"
@@ -135,11 +104,10 @@ def handle (stream : String) (args : List String) : String :=
       let t0 : Tx := { epoch, next := first, log := [] }
       let t := t0.run ((List.range n).map Who.app)
       let t' := if close = 1 then t.alloc .alert else t
-      let seqs := (t.log.map (·.seq)).reverse
+      let seqs := (t'.log.map (·.seq)).reverse
       let lo := seqs.head?.getD first
       let hi := seqs.getLast?.getD first
-      let alert := if close = 1 then s!"{epoch}:{(t'.log.head?.map (·.seq)).getD 0}" else "-"
-      if n = 0 then s!"{epoch}:- alert={alert}" else s!"{epoch}:{lo}-{hi}/{seqs.length} alert={alert}"
+      if seqs.isEmpty then s!"{epoch}:- alert={close}" else s!"{epoch}:{lo}-{hi}/{seqs.length} alert={close}"
     | _ => "bad-args"
   | "pub", [a] =>
     -- `pub <point>,<E>,<S>`: a sender that runs a whole send() right after publication statement <point>
@@ -152,6 +120,7 @@ def handle (stream : String) (args : List String) : String :=
       let s := PSys.run E S { rest := pubOrder } acts
       if s.log.isEmpty then "rejected" else " ".intercalate (s.log.reverse.map fun p => s!"{p.1}.{p.2}")
     | _ => "bad-args"
+  | "hs", _ => hsSession args
   | "dec", [hx] =>
     match unhex hx with
     | some bs => " ".intercalate (decAll (bs.length + 1) bs [])
